@@ -9,6 +9,7 @@ use std::io::Write;
 use std::panic::{catch_unwind, AssertUnwindSafe};
 
 pub struct Session<W: Write> {
+    pub collectors: Vec<Option<avt::util::TextCollector>>,
     pub out: W,
     pub slots: Vec<Option<Vt>>,
     pub events: u64,
@@ -40,7 +41,7 @@ fn esc(s: &str) -> String {
 
 impl<W: Write> Session<W> {
     pub fn new(out: W) -> Self {
-        Session { out, slots: Vec::new(), events: 0, episodes: 0, panics: 0, chars_fed: 0, log_view: false, distinct: Default::default(), last: Vec::new(), buf: String::new() }
+        Session { collectors: Vec::new(), out, slots: Vec::new(), events: 0, episodes: 0, panics: 0, chars_fed: 0, log_view: false, distinct: Default::default(), last: Vec::new(), buf: String::new() }
     }
 
     fn emit(&mut self) {
@@ -52,6 +53,7 @@ impl<W: Write> Session<W> {
 
     pub fn episode(&mut self, drv: &str) {
         self.slots.clear();
+        self.collectors.clear();
         self.last.clear();
         self.episodes += 1;
         let _ = write!(self.buf, "{{\"ev\":\"ep\",\"id\":{},\"drv\":\"{}\"}}", self.episodes, drv);
@@ -295,6 +297,85 @@ impl<W: Write> Session<W> {
                 false
             }
         }
+    }
+
+    fn strings(&mut self, v: &[String]) {
+        self.buf.push('[');
+        for (i, l) in v.iter().enumerate() {
+            if i > 0 {
+                self.buf.push(',');
+            }
+            obs::str_cps(&mut self.buf, l);
+        }
+        self.buf.push(']');
+    }
+
+    /// util::TextCollector over a fresh Vt; returns the collector number (1-based)
+    pub fn tc_new(&mut self, cols: usize, rows: usize, lim: i64) -> usize {
+        let vt = if lim < 0 { Vt::builder().size(cols, rows).build() } else { Vt::builder().size(cols, rows).scrollback_limit(lim as usize).build() };
+        self.collectors.push(Some(avt::util::TextCollector::new(vt)));
+        let k = self.collectors.len();
+        let _ = write!(self.buf, "{{\"ev\":\"tcnew\",\"tc\":{},\"cols\":{},\"rows\":{},\"lim\":{}}}", k, cols, rows, lim);
+        self.emit();
+        k
+    }
+
+    pub fn tc_feed(&mut self, k: usize, text: &str) -> bool {
+        if self.collectors[k - 1].is_none() {
+            return false;
+        }
+        let r = catch_unwind(AssertUnwindSafe(|| {
+            let tc = self.collectors[k - 1].as_mut().unwrap();
+            let out: Vec<String> = tc.feed_str(text).collect();
+            out
+        }));
+        match r {
+            Ok(out) => {
+                let _ = write!(self.buf, "{{\"ev\":\"tcfs\",\"tc\":{},\"s\":", k);
+                obs::str_cps(&mut self.buf, text);
+                self.buf.push_str(",\"out\":");
+                self.strings(&out);
+                self.buf.push('}');
+                self.emit();
+                true
+            }
+            Err(e) => {
+                self.collectors[k - 1] = None;
+                self.panics += 1;
+                self.buf.clear();
+                let _ = write!(self.buf, "{{\"ev\":\"panic\",\"slot\":0,\"op\":\"TextCollector::feed_str\",\"msg\":\"{}\"}}", esc(&panic_msg(e)));
+                self.emit();
+                false
+            }
+        }
+    }
+
+    pub fn tc_flush(&mut self, k: usize) -> bool {
+        let tc = match self.collectors[k - 1].take() {
+            Some(tc) => tc,
+            None => return false,
+        };
+        let r = catch_unwind(AssertUnwindSafe(move || tc.flush()));
+        match r {
+            Ok(out) => {
+                let _ = write!(self.buf, "{{\"ev\":\"tcflush\",\"tc\":{},\"out\":", k);
+                self.strings(&out);
+                self.buf.push('}');
+                self.emit();
+                true
+            }
+            Err(e) => {
+                self.panics += 1;
+                let _ = write!(self.buf, "{{\"ev\":\"panic\",\"slot\":0,\"op\":\"TextCollector::flush\",\"msg\":\"{}\"}}", esc(&panic_msg(e)));
+                self.emit();
+                false
+            }
+        }
+    }
+
+    pub fn tc_rel(&mut self, ks: &[usize]) {
+        let _ = write!(self.buf, "{{\"ev\":\"tcrel\",\"tcs\":{:?}}}", ks);
+        self.emit();
     }
 
     /// Ask TLC to evaluate a named relation over the current (logged) states of some slots.
